@@ -70,6 +70,9 @@ Definition z_react (b : tbeh) (z : lsim) (sg : usig) : lsim :=
           | OnTermLate d =>
               z_with_child z (Some (N.min l d)) (z_cstopped z)
                            (if d <? l then false else z_dead_ok z) (z_dead_seen z) (z_hold z)
+          | OnTermLateOk d =>
+              z_with_child z (Some (N.min l d)) (z_cstopped z)
+                           (if d <? l then true else z_dead_ok z) (z_dead_seen z) (z_hold z)
           end
       end
   end.
